@@ -196,7 +196,8 @@ def fill_tokens(fill):
                 part = [name, raw('=')] + part
                 first = False
             toks.append(T(*part))
-        for item in (fill.get('univs_spelled') or fill['univs']):
+        spelled = fill.get('univs_spelled')
+        for item in (fill['univs'] if spelled is None else spelled):
             toks.append(T(raw(str(item))))
     else:
         toks.append(T(name, raw('='), itok(fill['u'])))
